@@ -793,7 +793,7 @@ package adt
 //@ ghost var ctxGen int
 //@ func genAddEffect
 //@   assumed A-ext sync/atomic (*Uint64).Add: linearizable fetch-and-add (ghost ctxGen is the counter's value; no wrap-around within 2^64 contexts)
-//@   ensures ctxGen == old(ctxGen) + 1 && result == ctxGen
+//@   ensures ctxGen == old(ctxGen) + delta && result == ctxGen
 //@   assigns ctxGen
 //@ func configureEffect
 //@   assumed A-int: Runtime.ConfigureOpCtx copies settings (version, flags) into the new context; it does not change its opID
